@@ -77,11 +77,11 @@ pub fn gen(rng: &mut Rng, tier: &str, dist: &mut Dist) -> Vec<String> {
             let sizes = gen_sizes(rng);
             dist.bump(&format!("readsizes.{}", sizes_class(&sizes)));
             let kind = if valid { format!("valid:{}", hex(&content)) } else { "reject".to_string() };
-            cmds.push(format!("xz_read 1 {} {} {} {}", skip as u8, hex(&file), ints(&sizes), kind));
+            cmds.push(format!("xz_read 1 {} {} {} {} {}", skip as u8, hex(&file), ints(&sizes), cap_for(content.len()), kind));
             // multi-stream decoding off: stop right after the first stream
             let (d1, l1) = first.unwrap();
             let sizes = gen_sizes(rng);
-            cmds.push(format!("xz_read 0 {} {} {} first:{}:{}", skip as u8, hex(&file), ints(&sizes), hex(&d1), file.len() - l1));
+            cmds.push(format!("xz_read 0 {} {} {} {} first:{}:{}", skip as u8, hex(&file), ints(&sizes), cap_for(content.len()), hex(&d1), file.len() - l1));
         } else {
             // ---- LZIP: files (each possibly multi-member already) concatenated ----
             let k = 1 + rng.below(4) as usize;
@@ -117,7 +117,7 @@ pub fn gen(rng: &mut Rng, tier: &str, dist: &mut Dist) -> Vec<String> {
                     };
                     file.extend_from_slice(&t);
                     dist.bump("lzip.trailing_data");
-                    cmds.push(format!("lzip_read {} {} trailing:{}", hex(&file), ints(&sizes), hex(&content)));
+                    cmds.push(format!("lzip_read {} {} {} trailing:{}", hex(&file), ints(&sizes), cap_for(content.len()), hex(&content)));
                 }
                 1 => {
                     // something that claims to be a member but is damaged / truncated: an error
@@ -129,9 +129,9 @@ pub fn gen(rng: &mut Rng, tier: &str, dist: &mut Dist) -> Vec<String> {
                     };
                     file.extend_from_slice(&t);
                     dist.bump("lzip.damaged_next_header");
-                    cmds.push(format!("lzip_read {} {} reject", hex(&file), ints(&sizes)));
+                    cmds.push(format!("lzip_read {} {} {} reject", hex(&file), ints(&sizes), cap_for(content.len())));
                 }
-                _ => cmds.push(format!("lzip_read {} {} valid:{}", hex(&file), ints(&sizes), hex(&content))),
+                _ => cmds.push(format!("lzip_read {} {} {} valid:{}", hex(&file), ints(&sizes), cap_for(content.len()), hex(&content))),
             }
         }
     }
